@@ -22,7 +22,7 @@ RULE = ('records: 1-4 generated Kekule molecules (numbers <= 999, charges, isoto
         '(centres without explicit hydrogens) equal; the written mol block read by RDKit is the same molecule; RDKit-written V2000/'
         'V3000 blocks of corpus molecules are read to the same molecule; records after a damaged one are all returned in order; '
         'reader[i] == list(reader)[i]; repository test files give the independently counted number of records. '
-        'non-trivial = record has charge, isotope, radical, stereo label, special bond or metadata; distinct by written text')
+        'records written in two sessions (append=True) must read like one; drawings judged geometrically at record precision. non-trivial = record has charge, isotope, radical, stereo label, special bond or metadata; distinct by written text')
 ASSUMPTIONS = ['metadata is compared modulo the readers\' documented per-line whitespace normalisation',
                'stereo is compared only for centres without explicit hydrogen neighbours (recorded writer/reader asymmetry)',
                'RDKit mol block reading is the independent judge of the wedge convention']
